@@ -435,7 +435,7 @@ package ss2022
 // Object invariant of a stream connection: the read buffer, once allocated, can hold a maximum chunk and
 // readStart is an offset into it; the write buffer is empty with room for a length chunk and a maximum
 // payload chunk.
-//@ pure sscReadWF(c *ShadowStreamConn) bool = 0 <= c.readStart && c.readStart <= len(c.readBuf) && (isnil(c.readBuf) || cap(c.readBuf) >= 65535 + 16) && (isnil(c.readBuf) ==> len(c.readBuf) == 0) && !isnil(c.readCipher) && !samearray(c.readBuf, c.readCipher.nonce[:])
+//@ pure sscReadWF(c *ShadowStreamConn) bool = 0 <= c.readStart && c.readStart <= len(c.readBuf) && len(c.readBuf) <= 65535 && (isnil(c.readBuf) || cap(c.readBuf) >= 65535 + 16) && (isnil(c.readBuf) ==> len(c.readBuf) == 0) && !isnil(c.readCipher) && !samearray(c.readBuf, c.readCipher.nonce[:])
 //@ pure sscWriteWF(c *ShadowStreamConn) bool = len(c.writeBuf) == 0 && cap(c.writeBuf) >= 2 + 16 + 65535 + 16 && !isnil(c.writeCipher)
 
 // The nonce is a 96-bit little-endian counter (C02: every chunk is sealed and opened under its own sequence
@@ -486,7 +486,7 @@ package ss2022
 //@   callsite read: c.readStart == len(c.readBuf)
 
 //@ func (*ShadowStreamConn).writeToShadowStreamConn
-//@   requires !isnil(c) && !isnil(w) && sscReadWF(c) && sscWriteWF(w) && c != w && !samearray(w.writeBuf, c.readCipher.nonce[:]) && !samearray(w.writeBuf, w.writeCipher.nonce[:])
+//@   requires !isnil(c) && !isnil(w) && sscReadWF(c) && sscWriteWF(w) && c != w && !samearray(w.writeBuf, c.readCipher.nonce[:]) && !samearray(w.writeBuf, w.writeCipher.nonce[:]) && !samearray(c.readBuf, w.writeBuf)
 //@   loop 0 modifies writeBuf[0:cap(writeBuf)], c.readCipher.nonce[*], w.writeCipher.nonce[*]
 //@   loop 0 invariant sscReadWF(c) && sscWriteWF(w)
 //@   callsite read: c.readStart == len(c.readBuf)
